@@ -1,4 +1,5 @@
 import KoordVerif.Model.C12
+import KoordVerif.Model.C12Adjust
 import KoordVerif.Proofs.C12
 import KoordVerif.Proofs.C12None
 import KoordVerif.Proofs.C12ExtStatic
@@ -1540,5 +1541,116 @@ theorem cgr_low_raised_target_invalid_counterexample :
 /-- non-vacuity: ratio 1.5 = 3/2 on the pod of the counterexample (limits 2000m = 1500m + 500m). -/
 example : podQuota (fun q => (q * 2 + 3 - 1) / 3) [1500, 500] = 133334 ∧ ctrQuota (fun q => (q * 2 + 3 - 1) / 3) 1500 = 100000 := by
   decide
+
+/-! ### adjustByCPUSet: the old set is the besteffort ROOT dir's own content -/
+
+section Adjust
+variable (parent : Nat → Option Nat) (paths : List Nat) (depth : Nat → Nat) (root : Nat)
+
+/-- in a valid BE subtree (every dir but the root has a parent, depths count the steps to the root) every dir is
+    within the root's set: the hypothesis `hcov` of none_policy_every_prefix_valid is a CONSEQUENCE of validity once
+    the old set is the root's own content. -/
+theorem valid_within_root (f : Nat → Nat)
+    (hin : ∀ c p, parent c = some p → c ∈ paths ∧ p ∈ paths)
+    (hdep : ∀ c p, parent c = some p → depth c = depth p + 1)
+    (hanc : ∀ n ∈ paths, n = root ∨ ∃ p, parent n = some p)
+    (hv : Valid parent subMask f) : ∀ n ∈ paths, subMask (f n) (f root) := by
+  have key : ∀ d n, depth n = d → n ∈ paths → subMask (f n) (f root) := by
+    intro d
+    induction d with
+    | zero =>
+      intro n hd hn
+      rcases hanc n hn with h | ⟨p, h⟩
+      · rw [h]; exact subMask_refl _
+      · have := hdep n p h; omega
+    | succ d ih =>
+      intro n hd hn
+      rcases hanc n hn with h | ⟨p, h⟩
+      · rw [h]; exact subMask_refl _
+      · have h1 := hdep n p h
+        exact subMask_trans (hv n p h) (ih p (by omega) (hin n p h).2)
+  exact fun n hn => key (depth n) n rfl hn
+
+/-- **adjust_every_prefix_valid**: one round of adjustByCPUSet - the old set read from the besteffort root file by the
+    code itself - whatever the node topology says (kind 0 / 1: error, nothing written; 2: kubelet static policy, with the
+    share-pool hypotheses of static_policy_every_prefix_valid; anything else: none policy, NO hypothesis about the old
+    set left): after every single write every child's CPU set is within its parent's. -/
+theorem adjust_every_prefix_valid (kind : Nat) (exp : Bool) (rec : Option Nat) (cpus : Nat) (s : St Nat)
+    (hc : CacheOK s) (hnd : paths.Nodup)
+    (htop : paths.Pairwise (fun a b => parent a ≠ some b))
+    (hin : ∀ c p, parent c = some p → c ∈ paths ∧ p ∈ paths)
+    (hdep : ∀ c p, parent c = some p → depth c = depth p + 1)
+    (hmax : ∀ n ∈ paths, depth n ≤ 2)
+    (hanc : ∀ n ∈ paths, n = root ∨ ∃ p, parent n = some p)
+    (hst : kind = 2 → ∃ R, rec = some R ∧ (∀ n ∈ paths, subMask (s.files n) R) ∧ subMask cpus R)
+    (hold : Valid parent subMask s.files) :
+    ∀ k, Valid parent subMask (applyWrites s.files ((adjustByCPUSet kind exp paths depth rec cpus root s).2.take k)) := by
+  unfold adjustByCPUSet applyBESuppress
+  split
+  · intro k; simpa [applyWrites] using hold
+  · intro k; simpa [applyWrites] using hold
+  · obtain ⟨R, hR, hcov, hcp⟩ := hst rfl
+    rw [hR]
+    exact static_policy_every_prefix_valid parent paths depth R cpus exp s hc hnd htop hin hdep hmax hcov hcp hold
+  · exact none_policy_every_prefix_valid parent paths cpus (adjustOld root s) exp s hc hnd htop hin
+      (valid_within_root parent paths depth root s.files hin hdep hanc hold) hold
+
+/-- a round of the history theorem IS adjustByCPUSet under policy static (kind 2) / none (kind 3). -/
+theorem runRound_eq_adjust (R : Nat) (s : St Nat) (r : Round) :
+    runRound paths depth R root s r =
+      adjustByCPUSet (if r.static then 2 else 3) r.exp paths depth (some R) r.cpus root s := by
+  unfold runRound adjustByCPUSet applyBESuppress adjustOld
+  cases r.static <;> rfl
+
+/-- **adjust_history_every_prefix_valid**: any sequence of adjustByCPUSet rounds on one executor (kubelet policy static /
+    none in any order, new sets within the share pool), started from ANY valid BE subtree within the pool - in particular
+    one whose containers are narrower than the root, as a static round leaves it: valid after every single write.  The
+    start condition 'every dir within the root's set' of suppress_history_every_prefix_valid is discharged by
+    valid_within_root. -/
+theorem adjust_history_every_prefix_valid (R : Nat) (hnd : paths.Nodup)
+    (htop : paths.Pairwise (fun a b => parent a ≠ some b))
+    (hin : ∀ c p, parent c = some p → c ∈ paths ∧ p ∈ paths)
+    (hdep : ∀ c p, parent c = some p → depth c = depth p + 1)
+    (hmax : ∀ n ∈ paths, depth n ≤ 2)
+    (hroot : root ∈ paths ∧ depth root = 0)
+    (hanc : ∀ n ∈ paths, n = root ∨ ∃ p, parent n = some p)
+    (rs : List Round) (s : St Nat) (hcp : ∀ r ∈ rs, subMask r.cpus R)
+    (hc : CacheOK s) (hv : Valid parent subMask s.files) (hR : ∀ n ∈ paths, subMask (s.files n) R) :
+    ∀ k, Valid parent subMask (applyWrites s.files ((runRounds paths depth R root rs s).2.take k)) :=
+  (suppress_history_every_prefix_valid parent paths depth R root hnd htop hin hdep hmax hroot rs s hcp
+    ⟨hc, hv, hR, valid_within_root parent paths depth root s.files hin hdep hanc hv⟩).2
+
+end Adjust
+
+/-- why the old set must NOT be koordletutil.GetBECgroupCurCPUSet() (the narrowest container / root set):
+    besteffort(0) ← pod(1) ← container(2), root = pod = 0-15, container = 0-3 (what a static round leaves), new set 0-5
+    under policy none.  Old = narrowest = 0-3: the top-down pass writes 0-3 ∪ 0-5 = 0-5 into the root while the pod still
+    holds 0-15.  The end state is the same as with the root's own set. -/
+def adjExS : St Nat := { files := fun n => if n ≤ 1 then 65535 else if n = 2 then 15 else 0, cache := fun _ => none, skip := [] }
+
+theorem adjust_old_narrowest_counterexample :
+    narrowestOld [0, 1, 2] (fun n => n) 0 adjExS = 15 ∧ adjustOld 0 adjExS = 65535 ∧
+    ¬ (∀ k, Valid spExParent subMask (applyWrites adjExS.files
+        ((nonePolicy false [0, 1, 2] 63 (narrowestOld [0, 1, 2] (fun n => n) 0 adjExS) adjExS).2.take k))) ∧
+    (∀ n, n ≤ 2 → (nonePolicy false [0, 1, 2] 63 (narrowestOld [0, 1, 2] (fun n => n) 0 adjExS) adjExS).1.files n =
+      (adjustByCPUSet 3 false [0, 1, 2] (fun n => n) (some 65535) 63 0 adjExS).1.files n) := by
+  refine ⟨by decide, by decide, ?_, by decide⟩
+  intro h
+  have := h 1 1 0 rfl
+  revert this; decide
+
+/-- the same input through adjustByCPUSet as written: the write sequence, and all hypotheses of adjust_every_prefix_valid hold. -/
+example : (adjustByCPUSet 3 false [0, 1, 2] (fun n => n) (some 65535) 63 0 adjExS).2 =
+    [(2, 65535), (2, 63), (1, 63), (0, 63)] := by decide
+example : ∀ k, Valid spExParent subMask (applyWrites adjExS.files
+    ((adjustByCPUSet 3 false [0, 1, 2] (fun n => n) (some 65535) 63 0 adjExS).2.take k)) :=
+  adjust_every_prefix_valid spExParent [0, 1, 2] (fun n => n) 0 3 false (some 65535) 63 adjExS
+    (by intro n v h; simp [adjExS] at h) (by decide) (by simp [spExParent])
+    (by intro c p h; unfold spExParent at h; split at h <;> cases h <;> simp)
+    (by intro c p h; unfold spExParent at h; split at h <;> cases h <;> rfl)
+    (by intro n hn; simp at hn; rcases hn with h | h | h <;> subst h <;> decide)
+    (by intro n hn; simp at hn; rcases hn with h | h | h <;> subst h <;> simp [spExParent])
+    (by intro h; cases h)
+    (by intro c p h; unfold spExParent at h; split at h <;> cases h <;> decide)
 
 end KoordVerif.C12
